@@ -228,13 +228,52 @@ def run(ctx):
         if mem.kind != 'func':
             continue
         fn = mem.node
-        for n in ast.walk(fn):
-            if isinstance(n, ast.Assign) and len(n.targets) == 1 and isinstance(n.targets[0], ast.Name) \
-                    and n.targets[0].id.endswith(('_name', '_names')):
-                val = n.value
-                srcs = {ast.unparse(a.value) for a in ast.walk(val) if isinstance(a, ast.Attribute) and isinstance(a.value, ast.Name)}
-                if not srcs & {'node', 'smbl', 'proc_symbol', 'scope_ir', 'current_module', 'symbol', 'routine', 'type_', 'r', 'call'}:
+        # IR-rooted variables: the parameters that carry IR nodes / symbols / scopes (everything but the factory itself, the
+        # configuration and plain strings), and locals bound to attributes or elements of those
+        NOT_IR = {'self', 'cls', 'config', 'ignore', 'frontend_args', 'name', 'item_name', 'scope_name', 'item_cls', 'path', 'source',
+                  'proc_name', 'type_name', 'symbol_name', 'local_name'}
+        params_ = [a.arg for a in fn.args.args + fn.args.kwonlyargs]
+        roots = {p_ for p_ in params_ if p_ not in NOT_IR and not isinstance(p_, int)}
+        # string-typed parameters are recognised by use, not by name: a parameter that is sliced / split / lower-cased is a string
+        for x in ast.walk(fn):
+            if isinstance(x, ast.Call) and isinstance(x.func, ast.Attribute) and x.func.attr in ('split', 'rsplit', 'find', 'rfind', 'partition') \
+                    and isinstance(x.func.value, ast.Name):
+                roots.discard(x.func.value.id)
+            if isinstance(x, ast.Subscript) and isinstance(x.value, ast.Name) and isinstance(x.slice, ast.Slice):
+                roots.discard(x.value.id)
+        grew = True
+        while grew:
+            grew = False
+            for x in ast.walk(fn):
+                tg = it = None
+                if isinstance(x, (ast.For, ast.comprehension)):
+                    tg, it = x.target, x.iter
+                elif isinstance(x, ast.Assign) and len(x.targets) == 1 and isinstance(x.value, (ast.Attribute, ast.Subscript, ast.Name)):
+                    tg, it = x.targets[0], x.value
+                if tg is None:
                     continue
+                base = it
+                while isinstance(base, (ast.Attribute, ast.Subscript, ast.Call)):
+                    base = base.value if not isinstance(base, ast.Call) else base.func
+                if isinstance(base, ast.Name) and base.id in roots and not ast.unparse(it).startswith('self.'):
+                    if isinstance(it, ast.Attribute) and it.attr in ('name', 'basename', 'use_name', 'module', 'local_name'):
+                        continue        # that is a name string, not an IR object
+                    for t_ in ast.walk(tg):
+                        if isinstance(t_, ast.Name) and t_.id not in roots:
+                            roots.add(t_.id)
+                            grew = True
+        for n in ast.walk(fn):
+            if isinstance(n, ast.Assign) and len(n.targets) == 1 and isinstance(n.targets[0], ast.Name):
+                val = n.value
+                srcs = {ast.unparse(a.value) for a in ast.walk(val) if isinstance(a, ast.Attribute) and isinstance(a.value, ast.Name)
+                        and a.attr in ('name', 'basename', 'use_name', 'module', 'parent', 'type', 'name_parts')}
+                if not srcs & roots:
+                    continue
+                if not any(isinstance(a, ast.Attribute) and a.attr in ('name', 'basename', 'use_name', 'module', 'name_parts')
+                           for a in ast.walk(val)):
+                    continue
+                if isinstance(val, ast.Call) and X.call_name_of(val) in ('CaseInsensitiveDict', 'CaseInsensitiveDefaultDict'):
+                    continue        # a case-insensitive container, not a name
                 n4 += 1
                 r = classify(val, fn, at=n.lineno)
                 inst = f'ItemFactory.{mem.name}:{n.targets[0].id}@{sum(1 for x in ctx.instances if x[1].startswith(f"ItemFactory.{mem.name}:{n.targets[0].id}"))}'
@@ -275,8 +314,13 @@ def run(ctx):
                         key = None if _ci_container(m, fac.module, x.value) else x.slice
                     elif isinstance(x, ast.Compare) and isinstance(x.ops[0], (ast.In, ast.NotIn, ast.Eq, ast.NotEq)):
                         # membership in an IR scope compares through expression symbols (case-insensitive string equality)
-                        if isinstance(x.ops[0], (ast.In, ast.NotIn)) and ast.unparse(x.comparators[0]).split('.')[0] in {c.split('.')[0] for c in CI_SCOPES} \
-                                and not ast.unparse(x.comparators[0]).startswith('self.') or ast.unparse(x.comparators[0]) in CI_SCOPES:
+                        # membership in an IR scope / a map of an IR node compares through expression symbols or
+                        # CaseInsensitiveDicts; the item cache is a CaseInsensitiveDict (R3)
+                        croot = x.comparators[0]
+                        while isinstance(croot, (ast.Attribute, ast.Subscript)):
+                            croot = croot.value
+                        if isinstance(x.ops[0], (ast.In, ast.NotIn)) and ((isinstance(croot, ast.Name) and croot.id in roots)
+                                                                       or ast.unparse(x.comparators[0]) == 'self.item_cache'):
                             continue
                         for side in [x.left] + x.comparators:
                             if isinstance(side, ast.Name) and side.id in derived:
